@@ -151,7 +151,8 @@ func getAsStructOrSlice(data any) (out any, ok, wasStruct bool) {
 	}
 
 	switch v.Kind() {
-	case reflect.Struct:
+	case reflect.Struct, reflect.Map:
+		// a map of any key and value type is an object, like map[string]any
 		return v.Interface(), true, true
 	case reflect.Array, reflect.Slice:
 		if v.Len() == 0 {
